@@ -38,6 +38,8 @@ class Check(BaseCheck):
                    'results before 1900 must be #NUM!; results beyond 9999-12-31 are not judged',
                    'naive datetimes only (no tzinfo); the process time zone is varied (7 POSIX zones) and must not matter')
 
+    NO_AMBIENT = ('days', 'serials')      # the exhaustive sweeps (time zones have a campaign of their own)
+
     def plan(self, tier, seed):
         specs = [{'campaign': 'sentinels'}]
         n = 16
@@ -231,6 +233,22 @@ class Check(BaseCheck):
                         if r['error'] is not None or not dt_close(r['result'], exp):
                             rec.violation('C13/formula:DATE+n' + self.where(D.fromordinal(tgt_o)), formula=f, record=r, date=a, n=nn, expected=exp)
                         rec.nt(('add', f, str(a), nn))
+            # ... and adding days-with-a-fraction to a date-time with a time of day: the very date-time that much later, to the millisecond,
+            # as the VALUE of the formula (not only seen through N or a comparison)
+            if a >= MARCH1 and a.year < 9990:
+                secs = rnd.choice([0, 1, 59, 3599, 43200, 86399, rnd.randrange(86400), rnd.randrange(86400)])
+                dtm = a + datetime.timedelta(seconds=secs)
+                add = rnd.choice([0, 1, 3600, 86400, 86399, 1800, rnd.randrange(0, 10 * 86400), rnd.randrange(0, 400 * 86400)])
+                e.bind(d_t=dtm, n_t=add / 86400.0)
+                for f, exp in (('d_t+n_t', dtm + datetime.timedelta(seconds=add)), ('n_t+d_t', dtm + datetime.timedelta(seconds=add)), ('d_t-n_t', dtm - datetime.timedelta(seconds=add)), ('d_t+0', dtm)):
+                    if exp < MARCH1:
+                        continue
+                    r = e.raw(f)
+                    rec.case()
+                    ok = r['error'] is None and isinstance(r['result'], datetime.datetime) and abs((r['result'] - exp).total_seconds()) <= 0.0005
+                    if not ok:
+                        rec.violation('C13/formula:date-time+days-is-not-the-date-time-that-much-later' + self.where(exp), formula=f, d_t=dtm, n_t=add / 86400.0, record=r, expected=exp)
+                    rec.nt(('add-time', str(dtm), add, f))
             if a >= MARCH1 and b >= MARCH1:
                 self.expect_num(rec, e, '%s-%s' % (B, A), sb - sa, 'DATE-DATE')
                 self.expect_num(rec, e, 'DAYS(%s,%s)' % (B, A), sb - sa, 'DAYS')
